@@ -3,6 +3,7 @@ package main
 import (
 	"bytes"
 	"context"
+	"encoding/json"
 	"errors"
 	"fmt"
 	"strings"
@@ -237,5 +238,124 @@ func c17FaultScenarios(th bool) []vx.Scenario {
 			out = append(out, c17Fault(c, k))
 		}
 	}
+	for _, how := range []string{"delete", "readd"} {
+		for k := 0; k < n; k++ {
+			out = append(out, c17AdminFault(how, k))
+		}
+	}
+	for _, pr := range [][2]string{{"team/a", "team_a"}, {"team a", "team_a"}, {"team.a", "team-a"}, {"Team_A", "team_a"}, {"b\"1", "b1"}, {"b1", "b1 "}} {
+		out = append(out, c17Lookalike(pr[0], pr[1]), c17Lookalike(pr[1], pr[0]))
+	}
 	return out
+}
+
+// c17Lookalike: two backends whose ids differ only in punctuation ("team/a", "team_a", "team a", "TEAM_A").
+// The agent of one of them lists, fetches and answers with the other's request id: nothing of the other
+// backend may be listed, revealed or completed.
+func c17Lookalike(idA, idB string) vx.Scenario {
+	return vx.Scenario{Name: fmt.Sprintf("c17/lookalike-ids/%q-vs-%q", idA, idB), PB: 0, Single: true, MaxSteps: 400000, MaxTime: 5 * time.Minute,
+		Setup: func(s *vs.Sched) func(*vs.Result) vx.Exec {
+			var listB, fetchB, respB *reply
+			var clientA *reply
+			reqID := ""
+			secret := "secret-of-the-user-of-A-" + strings.Repeat("x", 12)
+			stage := 0
+			var sync int
+			s.Thread("driver", func() {
+				vae.Reset()
+				addBackend(types.Backend{BackendID: idA, BackendUser: a1, EndUser: u1, PathPrefixes: []string{"/"}})
+				addBackend(types.Backend{BackendID: idB, BackendUser: a2, EndUser: u2, PathPrefixes: []string{"/"}})
+				call(agent(a1), "GET", "/agent/pending", agentHdr(idA, ""), nil)
+				call(agent(a2), "GET", "/agent/pending", agentHdr(idB, ""), nil)
+				vs.Touch(unsafe.Pointer(&sync))
+				stage = 1
+				// the rightful agent sees the request
+				l := call(agent(a1), "GET", "/agent/pending", agentHdr(idA, ""), nil)
+				var ids []string
+				json.Unmarshal(l.body, &ids)
+				if len(ids) == 1 {
+					reqID = ids[0]
+				}
+				// the other backend's agent, acting as its own backend
+				listB = call(agent(a2), "GET", "/agent/pending", agentHdr(idB, ""), nil)
+				fetchB = call(agent(a2), "GET", "/agent/request", agentHdr(idB, reqID), nil)
+				respB = call(agent(a2), "POST", "/agent/response", agentHdr(idB, reqID), []byte("HTTP/1.1 200 OK\r\nContent-Length: 6\r\n\r\nforged"))
+				vs.Touch(unsafe.Pointer(&sync))
+				stage = 2
+			})
+			s.Thread("client-A", func() {
+				vs.Wait("backends live", unsafe.Pointer(&sync), func() bool { return stage >= 1 })
+				clientA = &reply{}
+				clientA = call(endUser(u1), "POST", "/doc", map[string]string{"X-Secret": secret}, []byte(secret))
+			})
+			return func(r *vs.Result) vx.Exec {
+				var x vx.Exec
+				base(r, &x)
+				if listB == nil || respB == nil || !respB.done {
+					if len(r.Panics) == 0 {
+						x.Violations = append(x.Violations, "NOANSWER: "+blockedList(r))
+					}
+					return x
+				}
+				x.Obs = fmt.Sprintf("%q vs %q: list %d %q, fetch %d, respond %d", idA, idB, listB.status, clip(string(listB.body)), fetchB.status, respB.status)
+				if reqID == "" {
+					x.Violations = append(x.Violations, "SETUP: the rightful agent was not shown its request")
+					return x
+				}
+				if bytes.Contains(listB.body, []byte(reqID)) {
+					x.Violations = append(x.Violations, fmt.Sprintf("CROSS-BACKEND: the agent of %q was shown request %s, which belongs to %q", idB, reqID, idA))
+				}
+				if fetchB.status == 200 || bytes.Contains(fetchB.body, []byte(secret)) || strings.Contains(fmt.Sprint(fetchB.header), secret) {
+					x.Violations = append(x.Violations, fmt.Sprintf("CROSS-BACKEND: the agent of %q fetched request %s of %q (status %d)", idB, reqID, idA, fetchB.status))
+				}
+				if respB.status == 200 {
+					x.Violations = append(x.Violations, fmt.Sprintf("CROSS-BACKEND: the agent of %q answered request %s of %q (status 200)", idB, reqID, idA))
+				}
+				if clientA != nil && clientA.done && clientA.status == 200 && string(clientA.body) == "forged" {
+					x.Violations = append(x.Violations, fmt.Sprintf("CROSS-BACKEND: the client of %q received the response forged by the agent of %q", idA, idB))
+				}
+				return x
+			}
+		}}
+}
+
+// c17AdminFault: an administrator's DELETE (or re-registration) of a backend with the k-th service call
+// failing: if the call reports success the change has happened - the former agent is refused.
+func c17AdminFault(how string, k int) vx.Scenario {
+	return vx.Scenario{Name: fmt.Sprintf("c17/admin-fault/%s/service-call-%d-fails", how, k), PB: 0, Single: true, MaxSteps: 200000, MaxTime: 2 * time.Minute,
+		Setup: func(s *vs.Sched) func(*vs.Result) vx.Exec {
+			w := &c17World{}
+			var adminRes, after *reply
+			nops := 0
+			c17Setup(s, w, func() {
+				vae.W().Fault = func(op vae.Op) error {
+					i := nops
+					nops++
+					if i == k {
+						return errors.New("injected: datastore timeout")
+					}
+					return nil
+				}
+				switch how {
+				case "delete":
+					adminRes = call(admin, "DELETE", "/api/backends/b1", nil, nil)
+				case "readd":
+					adminRes = addBackend(types.Backend{BackendID: "b1", BackendUser: a2, EndUser: u1, PathPrefixes: []string{"/"}})
+				}
+				vae.W().Fault = nil
+				after = w.do(agentCall{"pending", a1, "b1", ""})
+			})
+			return func(r *vs.Result) vx.Exec {
+				var x vx.Exec
+				base(r, &x)
+				if adminRes == nil || after == nil || !after.done {
+					return x
+				}
+				x.Obs = fmt.Sprintf("%s with service call %d failing -> %d; former agent then %d", how, k, adminRes.status, after.status)
+				if adminRes.status == 200 && after.status != 401 {
+					x.Violations = append(x.Violations, fmt.Sprintf("ACKNOWLEDGED-NOT-DONE: the administrator's %s of backend b1 answered 200 (service call %d failing), but its former agent is still accepted (status %d)", how, k, after.status))
+				}
+				return x
+			}
+		}}
 }
